@@ -260,7 +260,7 @@ def known_functions():
         try:
             with open(p) as f:
                 t = json.load(f)
-            _KNOWN_FNS = set(t["functions"])
+            _KNOWN_FNS = set(t["functions"]) | set(t.get("consts", []))
             _KNOWN_PARAMS = t.get("params", {})
         except OSError:
             _KNOWN_FNS = set()
@@ -274,6 +274,9 @@ def reviewed_param_name(fn, i, actual):
     if names and i < len(names) and names[i]:
         return names[i]
     return actual
+
+
+FN_RET = {}
 
 
 class AutoInline:
@@ -292,7 +295,7 @@ class AutoInline:
         if cal is None or cal == self.owner or cal in known_functions():
             return None
         b = self.world.get(cal)
-        if b is None or b.get("kind") not in ("Fn", "AssocFn") or b.get("is_async") or "::tests::" in cal:
+        if b is None or b.get("kind") not in ("Fn", "AssocFn") or "::tests::" in cal:
             return None
         return b
 
@@ -321,7 +324,14 @@ class SymX:
         st0 = St()
         for i, p in enumerate(cb.get("params", [])):
             sub.bind(p, vals[i] if i < len(vals) else None, st0)
-        outs = sub.ev(cb["body"], st0)
+        root = cb["body"]
+        fut = async_inner(root)
+        if fut is not None:
+            # a new async helper: its body runs when the returned future is awaited; `helper(..).await` is judged as the body inlined
+            for p in fut.get("params", []):
+                sub.bind(p, None, st0)
+            root = fut["body"]
+        outs = sub.ev(root, st0)
         paths = [Path(bs, "fall", bv) for bs, bv in outs] + sub.done
         res = []
         ret_ty = cb.get("ret", "")
@@ -335,7 +345,7 @@ class SymX:
             off = len(s.conds)
             shifted = [(t[:4] + (t[4] + off,)) if (len(t) > 4 and isinstance(t[4], int)) else t for t in p.trace]
             s2 = St(dict(s.env), s.conds + p.conds, s.trace + [("call", "<enter>", [("lit", cal)], node, off)] + shifted)
-            res.append((s2, v))
+            res.append((s2, ("future", v) if fut is not None else v))
         return res
 
     # -- Option / Result combinators that take the two continuations as functions ----------
@@ -361,11 +371,42 @@ class SymX:
         if isinstance(fv, tuple) and fv[0] == "def" and fv[1].split("::")[-1][:1].isupper() and fv[1] not in (self.inline.world or {}):
             return [(s, ("ctor", fv[1], list(vals)))]        # a tuple-variant / tuple-struct constructor used as a function
         if isinstance(fv, tuple) and fv[0] == "def":
-            t = ("call", fv[1], list(vals), e)
+            node = dict(e, ty=FN_RET[fv[1]]) if (fv[1] in FN_RET and isinstance(e, dict)) else e
+            t = ("call", fv[1], list(vals), node)
             s2 = s.fork()
             s2.log(t)
             return [(s2, t)]
         return None
+
+    def _strip_adaptors(self, sub, itv, s_body, e):
+        """`it.filter(p)` / `.filter_map(f)` / `.map(f)` in front of a loop: (adaptors, underlying iterator, [(state, element term)], skipped states, ok)."""
+        adaptors, base_it = [], itv
+        while is_call_t(base_it) and base_it[1] in ("std::iter::Iterator::filter", "std::iter::Iterator::filter_map", "std::iter::Iterator::map") and \
+                len(base_it[2]) == 2 and isinstance(base_it[2][1], tuple) and base_it[2][1][0] == "closure":
+            adaptors.append((base_it[1].split("::")[-1], base_it[2][1]))
+            base_it = base_it[2][0]
+        states, skipped, okd = [(s_body, ("elem", base_it))], [], True
+        for kind, clo in reversed(adaptors):
+            nxt = []
+            for st_c, cur in states:
+                res = sub.apply_fn(clo, [cur], st_c, e)
+                if res is None:
+                    okd = False
+                    break
+                for s2_, v in res:
+                    if kind == "filter":
+                        nxt.append((s2_.cond(("if", v, True)), cur))
+                        skipped.append(s2_.cond(("if", v, False)))
+                    elif kind == "filter_map":
+                        pn = {"k": "ptuplestruct", "path": "std::prelude::v1::Some", "pats": [{"k": "bind", "name": "v", "id": -1}]}
+                        nxt.append((s2_.cond(("match", v, "std::prelude::v1::Some(v)", True, pn, [], [])), ("proj", v, "Some.0")))
+                        skipped.append(s2_.cond(("match", v, "!std::prelude::v1::Some(v)", False, pn)))
+                    else:
+                        nxt.append((s2_, v))
+            if not okd:
+                break
+            states = nxt
+        return adaptors, base_it, states, skipped, okd
 
     def fold_as_loop(self, target, vals, s, e):
         """`it.fold(init, |acc, x| body)` is `let mut acc = init; for x in it { acc = body }; acc`; `it.for_each(|x| body)` is `for x in it { body }`:
@@ -380,14 +421,49 @@ class SymX:
         if (name == "fold" and (len(vals) != 3 or len(params) != 2)) or (name == "for_each" and (len(vals) != 2 or len(params) != 1)):
             return None
         itv = vals[0]
+        lit = itv
+        while is_call_t(lit) and lit[1].split("::")[-1] in ("into_iter", "iter") and lit[2]:
+            lit = lit[2][0]
+        if isinstance(lit, tuple) and lit[0] in ("array", "tuple") and 0 < len(lit[1]) <= 4:
+            # a fold / for_each over a short literal array is its closure applied once per element, in order
+            states = [(s, vals[1] if name == "fold" else ("unit",))]
+            for el in lit[1]:
+                nxt = []
+                for s_cur, acc in states:
+                    r = self.apply_fn(clo, [acc, el] if name == "fold" else [el], s_cur, e)
+                    if r is None:
+                        nxt = None
+                        break
+                    nxt.extend(r)
+                if nxt is None:
+                    states = None
+                    break
+                states = nxt
+                self._guard(len(states))
+            if states is not None:
+                return [(s_, v_ if name == "fold" else ("unit",)) for s_, v_ in states]
         sub = SymX(self.body, self.macros, self.inline, self.depth + 1)
         s_body = St(env=dict(clo[2]) if len(clo) > 2 else dict(s.env))
-        if name == "fold":
-            sub.bind(params[0], vals[1], s_body)
-            sub.bind(params[1], ("elem", itv), s_body)
+        adaptors, base_it, states, skipped, okd = self._strip_adaptors(sub, itv, s_body, e)
+        if adaptors and okd:
+            # `it.filter(p).for_each(g)` is `for x in it { if p(&x) { g(x) } }`: the loop is recorded over the underlying iterator
+            itv = base_it
+            body_outs = []
+            for st_c, cur in states:
+                if name == "fold":
+                    sub.bind(params[0], vals[1], st_c)
+                    sub.bind(params[1], cur, st_c)
+                else:
+                    sub.bind(params[0], cur, st_c)
+                body_outs.extend(sub.ev(clo[1]["body"], st_c))
+            body_outs.extend((sk, vals[1] if name == "fold" else ("unit",)) for sk in skipped)
         else:
-            sub.bind(params[0], ("elem", itv), s_body)
-        body_outs = sub.ev(clo[1]["body"], s_body)
+            if name == "fold":
+                sub.bind(params[0], vals[1], s_body)
+                sub.bind(params[1], ("elem", itv), s_body)
+            else:
+                sub.bind(params[0], ("elem", itv), s_body)
+            body_outs = sub.ev(clo[1]["body"], s_body)
         body_paths = [Path(bs, "fall", bv) for bs, bv in body_outs] + [Path(p.env and St(dict(p.env), p.conds, p.trace) or St(), "fall", p.ret) for p in sub.done if p.kind in ("return",)]
         pat = params[-1]
         node = {"paths": body_paths, "ln": e.get("ln"), "pat": pat}
@@ -402,6 +478,9 @@ class SymX:
         name = target.split("::")[-1]
         is_res = target.startswith("std::result::Result::")
         is_opt = target.startswith("std::option::Option::")
+        known = self.on_known_ctor(name, vals, s, e) if (is_res or is_opt) and vals else None
+        if known is not None:
+            return known
         if not (is_res or is_opt) or name not in ("map_or_else", "map_or"):
             return None         # (unwrap_or_else / unwrap_or stay terms: several rules read them as "value or fallback")
         x = vals[0]
@@ -425,6 +504,54 @@ class SymX:
         if a is None or b is None:
             return None
         return a + b
+
+    def on_known_ctor(self, name, vals, s, e):
+        """An Option / Result combinator applied to a value whose constructor is known on this path (an inlined helper returned
+        `Some(4)` / `Ok(x)` / `None`) is folded to what it evaluates to: `Some(v).is_some_and(f)` is `f(v)`, `Ok(x).map(f)` is `Ok(f(x))`."""
+        x = vals[0]
+        if not (isinstance(x, tuple) and x[0] == "ctor" and isinstance(x[2], list)):
+            return None
+        head = x[1].split("::")[-1]
+        if head not in ("Some", "Ok", "None", "Err") or (head != "None" and len(x[2]) != 1):
+            return None
+        good = head in ("Some", "Ok")
+        inner = x[2][0] if x[2] else None
+        lit = lambda b: [(s, ("lit", b))]
+        if name in ("is_some", "is_ok"):
+            return lit(good)
+        if name in ("is_none", "is_err"):
+            return lit(not good)
+        if name in ("is_some_and", "is_ok_and") and len(vals) == 2:
+            return self.apply_fn(vals[1], [inner], s, e) if good else lit(False)
+        if name == "is_none_or" and len(vals) == 2:
+            return self.apply_fn(vals[1], [inner], s, e) if good else lit(True)
+        if name == "map" and len(vals) == 2:
+            if not good:
+                return [(s, x)]
+            r = self.apply_fn(vals[1], [inner], s, e)
+            return None if r is None else [(s2, ("ctor", x[1], [v])) for s2, v in r]
+        if name == "map_err" and len(vals) == 2:
+            if good or head == "None":
+                return [(s, x)]
+            r = self.apply_fn(vals[1], [inner], s, e)
+            return None if r is None else [(s2, ("ctor", x[1], [v])) for s2, v in r]
+        if name == "and_then" and len(vals) == 2:
+            return self.apply_fn(vals[1], [inner], s, e) if good else [(s, x)]
+        if name in ("map_or", "map_or_else") and len(vals) == 3:
+            if good:
+                return self.apply_fn(vals[2], [inner], s, e)
+            return [(s, vals[1])] if name == "map_or" else self.apply_fn(vals[1], [inner] if head == "Err" else [], s, e)
+        if name in ("unwrap_or", "unwrap_or_default", "unwrap", "expect") and good:
+            return [(s, inner)]
+        if name == "unwrap_or" and len(vals) == 2:
+            return [(s, vals[1])]
+        if name == "unwrap_or_else" and len(vals) == 2:
+            return [(s, inner)] if good else self.apply_fn(vals[1], [inner] if head == "Err" else [], s, e)
+        if name == "ok_or" and len(vals) == 2:
+            return [(s, ("ctor", "std::prelude::v1::Ok", [inner]) if good else ("ctor", "std::prelude::v1::Err", [vals[1]]))]
+        if name == "ok" and len(vals) == 1:
+            return [(s, ("ctor", "std::prelude::v1::Some", [inner]) if good else ("ctor", "std::prelude::v1::None", []))]
+        return None
 
     # -- entry ---------------------------------------------------------------------------
     def run(self, node=None, params=None, env=None):
@@ -489,7 +616,8 @@ class SymX:
             for i, q in enumerate(p["pats"]):
                 v = None
                 if val is not None:
-                    if val[0] == "ctor" and val[1] == p.get("path") and isinstance(val[2], list) and i < len(val[2]):
+                    if val[0] == "ctor" and (val[1] == p.get("path") or (val[1].split("::")[-1] in ("Some", "Ok", "Err") and val[1].split("::")[-1] == (p.get("path") or "").split("::")[-1])) \
+                            and isinstance(val[2], list) and i < len(val[2]):
                         v = val[2][i]
                     elif _is_struct_pat(p):
                         v = ("field", val, str(i))          # `let Self(x) = v` is `v.0`
@@ -627,6 +755,18 @@ class SymX:
                 return [(st, st.env.get(r["id"], ("var", r["name"])))]
             if e.get("ctor"):
                 return [(st, ("ctor", e["ctor"], []))]
+            cpath = r.get("path", "?")
+            if cpath not in known_functions() and self.depth < 3:
+                # a constant introduced by a later edit stands for its value (like a new helper is inlined)
+                cb = self.inline.world.get(cpath)
+                if cb is not None and ("Const" in str(cb.get("kind")) ) and "::tests::" not in cpath:
+                    sub = SymX(cb, None, self.inline, self.depth + 1)
+                    vals = sub.ev(cb["body"], St())
+                    if len(vals) == 1 and not sub.done and isinstance(vals[0][1], tuple) and vals[0][1][0] in ("ctor", "lit", "def", "cast"):
+                        return [(st, vals[0][1])]
+            m = re.match(r"^(?:unsafe )?fn\(.*\) -> ([A-Za-z0-9_]+) \{", str(e.get("ty") or ""))
+            if m:
+                FN_RET[r.get("path", "?")] = m.group(1)         # `usize::from` used as a value: its result type, for integer-conversion idioms
             return [(st, ("def", r.get("path", "?")))]
         if k == "call":
             outs = []
@@ -658,6 +798,11 @@ class SymX:
                         continue
                     t = ("call", "<indirect>", [fv] + vals, e)
                 else:
+                    if cal == "std::default::Default::default" and not vals:
+                        dv = default_value(str(e.get("ty") or ""))
+                        if dv is not None:
+                            outs.append((s, dv[:3] + (e,) if dv[0] == "call" else dv))
+                            continue
                     res = e["f"].get("res", {}) if isinstance(e.get("f"), dict) else {}
                     inl = self.inline_call(res.get("resolved") or cal, vals, s, e)
                     if inl is not None:
@@ -680,9 +825,14 @@ class SymX:
                               "std::result::Result::<T, E>::as_ref", "std::result::Result::<T, E>::as_mut") and len(vals) == 1:
                     outs.append((s, vals[0]))
                     continue
+                if target == "std::default::Default::default" and not vals:
+                    dv = default_value(str(e.get("ty") or ""))
+                    if dv is not None:
+                        outs.append((s, dv))
+                        continue
                 lp = self.fold_as_loop(target, vals, s, e)
                 if lp is not None:
-                    outs.append(lp)
+                    outs.extend(lp if isinstance(lp, list) else [lp])
                     continue
                 exp = self.expand_combinator(target, vals, s, e)
                 if exp is not None:
@@ -711,7 +861,8 @@ class SymX:
         if k == "un":
             if e["op"] == "Deref":
                 return self.ev(e["e"], st)
-            return [(s, ("un", e["op"], v)) for s, v in self.ev(e["e"], st)]
+            return [(s, ("lit", not v[1]) if (e["op"] == "Not" and isinstance(v, tuple) and v[0] == "lit" and isinstance(v[1], bool)) else ("un", e["op"], v))
+                    for s, v in self.ev(e["e"], st)]
         if k == "bin":
             outs = []
             for s, vals in self.seq([e["a"], e["b"]], st):
@@ -741,6 +892,14 @@ class SymX:
             outs = []
             for s, vals in self.seq([f["e"] for f in e["fields"]], st):
                 d = dict(zip(names, vals))
+                bk = self.place_key(e["base"]) if "base" in e else None
+                if bk is not None and not isinstance(bk, tuple) and str(e.get("ty") or "x") == str(unwrap(e["base"]).get("ty") or "y"):
+                    # `S { f: v, ..base }` with a local base of the same type is `base.f = v; base` (functional record update)
+                    s2 = s.fork()
+                    for fname, fval in d.items():
+                        s2.env[(bk, fname)] = fval
+                    outs.extend(self.ev(e["base"], s2))
+                    continue
                 if "base" in e:
                     for s2, b in self.ev(e["base"], s):
                         d2 = dict(d)
@@ -772,10 +931,38 @@ class SymX:
                 outs = []
                 for s, v in self.ev(c["init"], st):
                     pr = show(c["pat"])
-                    s_t = s.cond(("match", v, pr, True, c["pat"]))
-                    self.bind(c["pat"], v, s_t)
-                    outs.extend(self.ev(e["t"], s_t))
-                    s_f = s.cond(("match", v, "!" + pr, False, c["pat"]))
+                    cp = c["pat"]
+                    while cp.get("k") in ("pref", "pderef"):
+                        cp = cp["p"]
+                    if is_call_t(v) and v[1] in ("std::option::Option::<T>::map", "std::result::Result::<T, E>::map") and len(v[2]) == 2 and \
+                            isinstance(v[2][1], tuple) and v[2][1][0] == "closure" and cp.get("k") == "ptuplestruct" and \
+                            (cp.get("path") or "").split("::")[-1] in ("Some", "Ok") and len(cp["pats"]) == 1:
+                        # `if let Some(y) = x.map(f)` is `if let Some(v) = x { let y = f(v); .. }`
+                        x, good = v[2][0], (cp.get("path") or "").split("::")[-1]
+                        s_t = s.cond(("match", x, pr, True, c["pat"]))
+                        applied = self.apply_fn(v[2][1], [("proj", x, good + ".0")], s_t, e)
+                        if applied is not None:
+                            for s2, val in applied:
+                                self.bind(cp["pats"][0], val, s2)
+                                outs.extend(self.ev(e["t"], s2))
+                            s_f = s.cond(("match", x, "!" + pr, False, c["pat"]))
+                            if "e" in e:
+                                outs.extend(self.ev(e["e"], s_f))
+                            else:
+                                outs.append((s_f, ("unit",)))
+                            continue
+                    vs = pat_variant_set(c["pat"])
+                    p_t = p_f = None
+                    if vs is not None and vs[0] != "*":
+                        p_t = ("in", frozenset(vs[0]))
+                        p_f = ("notin", frozenset(vs[0])) if vs[1] else None
+                    if p_t is None or feasible_variants(s.conds, v, p_t):
+                        s_t = s.cond(("match", v, pr, True, c["pat"], [], [], p_t))
+                        self.bind(c["pat"], v, s_t)
+                        outs.extend(self.ev(e["t"], s_t))
+                    if p_f is not None and not feasible_variants(s.conds, v, p_f):
+                        continue
+                    s_f = s.cond(("match", v, "!" + pr, False, c["pat"], [], [], p_f))
                     if "e" in e:
                         outs.extend(self.ev(e["e"], s_f))
                     else:
@@ -783,6 +970,15 @@ class SymX:
                 return outs
             outs = []
             for s, v in self.ev(c, st):
+                if isinstance(v, tuple) and v[0] == "lit" and isinstance(v[1], bool):
+                    # decided on this path (a combinator folded on a known constructor): only one side exists
+                    if v[1]:
+                        outs.extend(self.ev(e["t"], s))
+                    elif "e" in e:
+                        outs.extend(self.ev(e["e"], s))
+                    else:
+                        outs.append((s, ("unit",)))
+                    continue
                 outs.extend(self.ev(e["t"], s.cond(("if", v, True))))
                 s_f = s.cond(("if", v, False))
                 if "e" in e:
@@ -888,6 +1084,8 @@ class SymX:
                     inner_err = v[2][0] if (head == "Err" and isinstance(v[2], list) and len(v[2]) == 1) else None
                     if is_call_t(inner_err) and inner_err[1] == "<from-err>" and inner_err[2]:
                         self.done.append(Path(s, "try", ("err?", inner_err[2][0])))
+                    elif isinstance(inner_err, tuple) and inner_err[0] == "proj" and str(inner_err[2]).startswith("Err."):
+                        self.done.append(Path(s, "try", ("err?", inner_err[1])))     # `Err(e) => Err(e)` of x, then `?`: x's own error
                     else:
                         self.done.append(Path(s, "try", ("err?", v)))
                     continue
@@ -908,7 +1106,7 @@ class SymX:
         if src == "await":
             sc = unwrap(e["scrut"])
             inner = sc["args"][0] if sc.get("k") == "call" and sc.get("args") else sc
-            return [(s, ("await", v)) for s, v in self.ev(inner, st)]
+            return [(s, v[1] if (isinstance(v, tuple) and v[0] == "future") else ("await", v)) for s, v in self.ev(inner, st)]
         if src == "for":
             # match into_iter(ITER) { mut iter => loop { match next(&mut iter) { None => break, Some(PAT) => BODY } } }
             sc = unwrap(e["scrut"])
@@ -958,32 +1156,7 @@ class SymX:
                 s_body = St(env=dict(s.env))
                 # `for x in it.filter(p)` is `for x in it { if !p(&x) { continue } .. }`, `.filter_map(f)` a match on f(x), `.map(f)` a let:
                 # the loop is recorded over the underlying iterator and the adaptor's test becomes a condition of the body paths
-                adaptors, base_it = [], itv
-                while is_call_t(base_it) and base_it[1] in ("std::iter::Iterator::filter", "std::iter::Iterator::filter_map", "std::iter::Iterator::map") and \
-                        len(base_it[2]) == 2 and isinstance(base_it[2][1], tuple) and base_it[2][1][0] == "closure":
-                    adaptors.append((base_it[1].split("::")[-1], base_it[2][1]))
-                    base_it = base_it[2][0]
-                states, skipped, okd = [(s_body, ("elem", base_it))], [], True
-                for kind, clo in reversed(adaptors):
-                    nxt = []
-                    for st_c, cur in states:
-                        res = sub.apply_fn(clo, [cur], st_c, e)
-                        if res is None:
-                            okd = False
-                            break
-                        for s2_, v in res:
-                            if kind == "filter":
-                                nxt.append((s2_.cond(("if", v, True)), cur))
-                                skipped.append(s2_.cond(("if", v, False)))
-                            elif kind == "filter_map":
-                                pn = {"k": "ptuplestruct", "path": "std::prelude::v1::Some", "pats": [{"k": "bind", "name": "v", "id": -1}]}
-                                nxt.append((s2_.cond(("match", v, "std::prelude::v1::Some(v)", True, pn, [], [])), ("proj", v, "Some.0")))
-                                skipped.append(s2_.cond(("match", v, "!std::prelude::v1::Some(v)", False, pn)))
-                            else:
-                                nxt.append((s2_, v))
-                    if not okd:
-                        break
-                    states = nxt
+                adaptors, base_it, states, skipped, okd = self._strip_adaptors(sub, itv, s_body, e)
                 if adaptors and okd:
                     itv = base_it
                     body_outs = []
@@ -1005,10 +1178,12 @@ class SymX:
                 node = {"paths": body_paths, "ln": e.get("ln"), "pat": pat}
                 s2.log(("call", "<for>", [itv, ("lit", show(pat))], node))
                 self._phi(s2, s.env, body_paths, node)
+                self._collect_loop(s2, s.env, body_paths, itv, e)
                 outs.append((s2, ("unit",)))
             return outs
         outs = []
         for s, v in self.ev(e["scrut"], st):
+            excluded = set()      # variants wholly matched by earlier unguarded arms
             earlier = []          # patterns of earlier *unguarded* arms: reaching a later arm proves these did not match
             earlier_guarded = []  # patterns of earlier guarded arms: a later arm is also reached when one matched and its guard failed
             lit_arms = []         # (literal term) of earlier unguarded literal arms: `match x { 1 => a, _ => b }` is `if x == 1 { a } else { b }`
@@ -1018,8 +1193,18 @@ class SymX:
                 litv = None
                 if ap.get("k") == "pexpr" and isinstance(ap.get("e"), dict) and ap["e"].get("k") == "lit" and isinstance(ap["e"].get("v"), (int, bool)) and not ap["e"].get("neg"):
                     litv = ("lit", ap["e"]["v"])
-                if litv is not None and "guard" not in arm and isinstance(v, tuple) and v[0] in ("call", "cast", "var", "field", "bin"):
+                if litv is not None and "guard" not in arm and isinstance(v, tuple) and v[0] in ("call", "cast", "var", "field", "bin", "ok?", "un", "await"):
                     s_i = s
+                    if isinstance(litv[1], bool):
+                        # `match b { true => .., false => .. }` is `if b { .. } else { .. }`
+                        if any(lj[1] == litv[1] for lj in lit_arms):
+                            continue
+                        s_i = s_i.cond(("if", v, litv[1]))
+                        outs.extend(self.ev(arm["body"], s_i))
+                        lit_arms.append(litv)
+                        earlier.append(pr)
+                        self._guard(len(outs))
+                        continue
                     for lj in lit_arms:
                         s_i = s_i.cond(("if", ("bin", "Eq", v, lj), False))
                     s_i = s_i.cond(("if", ("bin", "Eq", v, litv), True))
@@ -1030,9 +1215,28 @@ class SymX:
                     continue
                 s_i = s
                 if lit_arms and ap.get("k") in ("wild", "bind"):
-                    for lj in lit_arms:
-                        s_i = s_i.cond(("if", ("bin", "Eq", v, lj), False))
-                s_i = s_i.cond(("match", v, pr, i, arm["pat"], earlier[:], earlier_guarded[:]))
+                    if all(isinstance(lj[1], bool) for lj in lit_arms):
+                        if len({lj[1] for lj in lit_arms}) == 2:
+                            continue        # both truth values already taken
+                        s_i = s_i.cond(("if", v, not lit_arms[0][1]))
+                    else:
+                        for lj in lit_arms:
+                            s_i = s_i.cond(("if", ("bin", "Eq", v, lj), False))
+                vs = pat_variant_set(ap)
+                known = v[1].split("::")[-1] if (isinstance(v, tuple) and v[0] == "ctor" and v[1].split("::")[-1] in ("Some", "None", "Ok", "Err")) else None
+                if known is not None and vs is not None and vs[0] != "*" and known not in {q.split("::")[-1] for q in vs[0]}:
+                    (earlier_guarded if "guard" in arm else earlier).append(pr)
+                    continue        # the value's constructor is known on this path (an inlined helper returned it): this arm cannot match
+                poss = None
+                if vs is not None:
+                    poss = ("notin", frozenset(excluded)) if vs[0] == "*" else ("in", frozenset(vs[0] - excluded))
+                    if "guard" not in arm and vs[1] and vs[0] != "*":
+                        excluded |= vs[0]
+                if poss is not None and not feasible_variants(s.conds, v, poss):
+                    (earlier_guarded if "guard" in arm else earlier).append(pr)
+                    continue        # an earlier test of the same value on this path (an inlined helper's match) already excludes this arm
+                if not (known is not None and vs is not None and vs[0] != "*" and vs[1]):       # (a known constructor matched by its own pattern is no test)
+                    s_i = s_i.cond(("match", v, pr, i, arm["pat"], earlier[:], earlier_guarded[:], poss))
                 self.bind(arm["pat"], v, s_i)
                 if "guard" in arm:
                     for s_g, g in self.ev(arm["guard"], s_i):
@@ -1041,7 +1245,29 @@ class SymX:
                     outs.extend(self.ev(arm["body"], s_i))
                 (earlier_guarded if "guard" in arm else earlier).append(pr)
                 self._guard(len(outs))
+                if known is not None and vs is not None and vs[0] != "*" and vs[1] and "guard" not in arm:
+                    break           # .. and this arm always does: later arms are unreachable
         return outs
+
+    def _collect_loop(self, st, entry_env, body_paths, itv, e):
+        """`let mut v = Vec::new(); for x in it { v.push(f(x)) }` builds what `it.map(f).collect()` builds: after such a loop the
+        vector stands for ('call', '<collect>', [it, f(elem)]) - the elements of `it`, each wrapped by f, in order."""
+        if len(body_paths) != 1 or body_paths[0].kind != "fall" or body_paths[0].conds:
+            return
+        from .terms import subterms
+        tr = [t for t in body_paths[0].trace if is_call_t(t)]
+        pushes = [t for t in tr if t[1] == "std::vec::Vec::<T, A>::push" and len(t[2]) == 2]
+        if len(pushes) != 1:
+            return
+        recv, item = pushes[0][2]
+        if not (is_call_t(recv) and recv[1] in ("std::vec::Vec::<T>::new", "std::vec::Vec::<T>::with_capacity", "std::vec::Vec::<T, A>::new", "std::vec::Vec::<T, A>::with_capacity")):
+            return
+        inside = {id(x) for x in subterms(item)}
+        if any(t is not pushes[0] and id(t) not in inside for t in tr):
+            return          # the body does something else as well
+        for k, v in entry_env.items():
+            if v is recv:
+                st.env[k] = ("call", "<collect>", [itv, item], e)
 
     def _phi(self, st, entry_env, body_paths, node):
         """Loop-carried assignments: a variable assigned in the body becomes phi(before, [values after one iteration])."""
@@ -1082,6 +1308,84 @@ class SymX:
         return outs
 
 
+def default_value(ty):
+    """`T::default()` for the std types whose default is a fixed, well-known value."""
+    if ty == "bool":
+        return ("lit", False)
+    if ty in ("u8", "u16", "u32", "u64", "u128", "usize", "i8", "i16", "i32", "i64", "i128", "isize"):
+        return ("lit", 0)
+    if ty.startswith("std::option::Option<"):
+        return ("ctor", "std::prelude::v1::None", [])
+    if ty == "std::string::String":
+        return ("call", "std::string::String::new", [], None)
+    if ty.startswith("std::vec::Vec<"):
+        return ("call", "std::vec::Vec::<T>::new", [], None)
+    if ty.startswith("std::collections::BTreeMap<"):
+        return ("call", "std::collections::BTreeMap::<K, V>::new", [], None)
+    if ty.startswith("std::collections::HashMap<"):
+        return ("call", "std::collections::HashMap::<K, V>::new", [], None)
+    return None
+
+
+def pat_variant_set(pat):
+    """(set of enum variant paths the pattern can match | '*', whether it matches every value of those variants); None = not a variant pattern."""
+    while pat and pat.get("k") in ("pref", "pderef", "pguard"):
+        pat = pat["p"]
+    if not pat:
+        return None
+    k = pat.get("k")
+    if k == "wild" or (k == "bind" and "sub" not in pat):
+        return ("*", True)
+    if k == "bind":
+        return pat_variant_set(pat["sub"])
+    if k == "por":
+        parts = [pat_variant_set(q) for q in pat["pats"]]
+        if any(x is None or x[0] == "*" for x in parts):
+            return None
+        return (set().union(*[x[0] for x in parts]), all(x[1] for x in parts))
+    path = pat.get("path")
+    if k == "pexpr" and path and "::" in str(pat.get("ty", "")) and (isinstance(pat.get("e"), dict) and pat["e"].get("k") == "path" or "e" not in pat):
+        return ({path}, True)       # a unit variant (the scrutinee is an enum, not a number or a string compared with a named constant)
+    if k == "ptuplestruct" and path and not _is_struct_pat(pat):
+        subs = [pat_variant_set(q) for q in pat["pats"]]
+        return ({path}, all(x is not None and x[0] == "*" for x in subs))
+    if k == "pstruct" and path and not _is_struct_pat(pat):
+        subs = [pat_variant_set(f["p"]) for f in pat["fields"]]
+        return ({path}, all(x is not None and x[0] == "*" for x in subs))
+    return None
+
+
+def _pure(t):
+    if not isinstance(t, tuple):
+        return True
+    if t[0] in ("call", "closure", "phi", "opaque", "elem"):
+        return False
+    if t[0] in ("var", "lit", "def"):
+        return True
+    if t[0] in ("field", "proj", "ok?", "await"):
+        return _pure(t[1])
+    return False
+
+
+def feasible_variants(conds, v, poss):
+    """False when an earlier match of the very same value on this path leaves none of the variants `poss` allows."""
+    for c in conds:
+        if c[0] != "match" or len(c) < 8 or c[7] is None:
+            continue
+        if not (c[1] is v or (_pure(v) and _pure(c[1]) and c[1] == v)):
+            continue
+        a, b = c[7], poss
+        if a[0] == "in" and b[0] == "in" and not (a[1] & b[1]):
+            return False
+        if a[0] == "in" and b[0] == "notin" and a[1] and a[1] <= b[1]:
+            return False
+        if a[0] == "notin" and b[0] == "in" and b[1] and b[1] <= a[1]:
+            return False
+        if b[0] == "in" and not b[1]:
+            return False
+    return True
+
+
 def async_inner(root):
     """If root is the lowering of an `async fn` body, return the coroutine closure node."""
     n = unwrap(root)
@@ -1117,7 +1421,21 @@ def simp(t):
         # (x + c) - c  ->  x   (the only arithmetic the rules need)
         if t[1] == "Sub" and a[0] == "bin" and a[1] == "Add" and a[3] == b and b[0] == "lit":
             return a[2]
+        if a[0] == "lit" and b[0] == "lit" and isinstance(a[1], int) and isinstance(b[1], int) and not isinstance(a[1], bool) and not isinstance(b[1], bool):
+            f = {"Add": lambda x, y: x + y, "Sub": lambda x, y: x - y, "Mul": lambda x, y: x * y, "Shl": lambda x, y: x << y if 0 <= y < 64 else None,
+                 "Shr": lambda x, y: x >> y if 0 <= y < 64 else None, "BitOr": lambda x, y: x | y, "BitAnd": lambda x, y: x & y, "BitXor": lambda x, y: x ^ y}.get(t[1])
+            v = f(a[1], b[1]) if f else None
+            if v is not None and 0 <= v < (1 << 64):
+                return ("lit", v)           # constant arithmetic (`(major << 8) | minor` of literals)
         return ("bin", t[1], a, b)
+    if k == "cast":
+        x = simp(t[2])
+        bits = {"u8": 8, "u16": 16, "u32": 32, "u64": 64, "usize": 64}.get(str(t[1]))
+        if x[0] == "lit" and isinstance(x[1], int) and not isinstance(x[1], bool) and bits and 0 <= x[1] < (1 << bits):
+            return x                        # a literal that fits is unchanged by the widening / same-width cast
+        return ("cast", t[1], x)
+    if k in ("array", "tuple"):
+        return (k, [simp(v) for v in t[1]])
     if k == "index":
         return ("index", simp(t[1]), simp(t[2]))
     if k == "ctor":
@@ -1133,6 +1451,10 @@ def simp(t):
                 return args[0][2][0]
             if v in ("None", "Err"):
                 return args[1]
+        m = re.match(r"^core::num::<impl (u16|u32|u64)>::from_(be|le)_bytes$", str(name))
+        if m and len(args) == 1 and args[0][0] in ("array", "tuple") and all(x[0] == "lit" and isinstance(x[1], int) and 0 <= x[1] < 256 for x in args[0][1]) and \
+                len(args[0][1]) == {"u16": 2, "u32": 4, "u64": 8}[m.group(1)]:
+            return ("lit", int.from_bytes(bytes(x[1] for x in args[0][1]), "big" if m.group(2) == "be" else "little"))
         if name == "std::option::Option::<T>::unwrap_or_default" and args and args[0][0] == "ctor":
             v = args[0][1].split("::")[-1]
             if v == "Some" and args[0][2]:
